@@ -376,6 +376,13 @@ class SchemaValidator:
     def validate_interfaces(self, type_: ObjectType) -> None:
         imlemented_types = set()  # type: Set[str]
         for interface in type_.interfaces:
+            if not isinstance(interface, InterfaceType):
+                self.add_error(
+                    'Type "%s" must only implement Interface types, it cannot '
+                    'implement "%s"' % (type_, interface)
+                )
+                continue
+
             # TODO: This could be automatically fixed.
             if interface.name in imlemented_types:
                 self.add_error(
